@@ -92,6 +92,7 @@ pub fn guarded<T>(sim: &Sim, what: &str, f: impl FnOnce() -> T) -> Option<T> {
     sim.hk.borrow_mut().api_depth += 1;
     let r = catch_unwind(AssertUnwindSafe(f));
     sim.hk.borrow_mut().api_depth -= 1;
+    attribute_faults(sim);
     match r {
         Ok(v) => Some(v),
         Err(p) => {
@@ -1087,6 +1088,35 @@ pub fn drop_kept(sim: &Sim, id: Id) {
         }
     };
     let _ = catch_unwind(AssertUnwindSafe(move || drop(d)));
+}
+
+/// An injected registration fault makes exactly the owner of that fd indeterminate - also
+/// when the failing call was made deep inside something else (an adapter unregistering itself
+/// while the executor that owns its future is being dropped).
+pub fn attribute_faults(sim: &Sim) {
+    let fds: Vec<i32> = std::mem::take(&mut sim.hk.borrow_mut().faulted_fds);
+    if fds.is_empty() {
+        return;
+    }
+    let Ok(mut st) = sim.st.try_borrow_mut() else {
+        sim.hk.borrow_mut().faulted_fds = fds;
+        return;
+    };
+    let mut n_ad = 0;
+    for a in st.adapters.values_mut() {
+        if fds.contains(&a.own.0.as_raw_fd()) && !a.indeterminate {
+            a.indeterminate = true;
+            n_ad += 1;
+        }
+    }
+    st.adapters_indeterminate += n_ad;
+    for s in st.srcs.values_mut() {
+        if let K::Generic(g) = &s.k {
+            if fds.contains(&g.own.0.as_raw_fd()) {
+                s.indeterminate = true;
+            }
+        }
+    }
 }
 
 /// Environment events stand for things other threads / peers do while the loop sleeps: only
